@@ -686,7 +686,21 @@ func runSplit(s scen) *result {
 	return res
 }
 
-func run(s scen) *result {
+// run executes one scenario; a panic of the code under test is reported as a failure.
+func run(s scen) (res *result) {
+	defer func() {
+		if r := recover(); r != nil {
+			if msg, ok := r.(string); ok && strings.HasPrefix(msg, "harness assumption") {
+				panic(r)
+			}
+			res = &result{hist: map[string]int{}}
+			res.fail("code-panics", fmt.Sprintf("the code under test panicked: %v", r), s)
+		}
+	}()
+	return runSafe(s)
+}
+
+func runSafe(s scen) *result {
 	switch s.Kind {
 	case "client":
 		return runClient(s)
